@@ -86,7 +86,7 @@ def run(ctx):
             ("datadog", "influxdb/v1", "influxdb/v2", "newrelic/infra", "newrelic/insights", "newrelic/metrics", "otlp/AsGauge", "otlp/AsHistogram", "cloudwatch",
              "graphite/legacy", "graphite/basic", "graphite/tags", "statsdaemon/udp", "statsdaemon/tcp", "statsdaemon/udp/notags", "stdout")]
     for n in need:
-        if named.get(n, 0) == 0:
+        if named.get(n, 0) == 0 and not ctx.violations:
             raise vlib.MachineryError("vacuity: %s never reached" % n)
     ctx.cov["named_situations"] = named
     ctx.cov["rule"] = ("hand-written core states (batch filled exactly by the last series, only histogram timers after a full batch, every base "
